@@ -160,3 +160,35 @@ def b_native(tier, seed):
             if not np.allclose(dense, spec, atol=1e-12):
                 failures.append({"what": f"asformat({fmt}) differs from dense accumulation", "input": {"shape": [M, N], "trial": trial}})
     return {"cases": cases, "distinct": cases, "failures": failures[:3], "bound": "random shapes <= 6x6, sequences of length 0..40, value kinds dense/coo/csr/nested/None"}
+
+
+@contract("C15", "CooMatrix/dense blocks of any numeric dtype", samples=0, replayable=False, timeout=30)
+def c_dtypes(k):
+    """the property is about values, not about their machine type: integer / single-precision / boolean blocks and Python
+    numbers accumulate like their float64 values (executed natively; exact small integers, so equality is exact)"""
+    if not k.sym:
+        from vk import kit as K
+
+        raise K.Reject("decided by native execution")
+    from vk import npshim
+
+    k.covers(CooMatrix.__setitem__, CooMatrix.asformat)
+    with npshim.active(False):
+        base = np.arange(1, 7).reshape(2, 3)
+        for name, block in (("int64", base.astype(np.int64)), ("int32", base.astype(np.int32)), ("float32", base.astype(np.float32)), ("bool", base % 2 == 0), ("nested list of ints", base.tolist()), ("float64", base.astype(float))):
+            coo = CooMatrix((4, 5))
+            coo[1:3, 2:5] = np.asarray(block) if not isinstance(block, list) else block
+            coo[0:2, 0:3] = 0.5 * np.ones((2, 3))
+            coo[1:3, 2:5] = np.asarray(block) if not isinstance(block, list) else block
+            ref = np.zeros((4, 5))
+            ref[1:3, 2:5] += 2 * np.asarray(block, dtype=float)
+            ref[0:2, 0:3] += 0.5
+            for fmt in ("array", "coo", "csr", "csc"):
+                got = coo.asformat(fmt)
+                got = got if isinstance(got, np.ndarray) else got.toarray()
+                k.prove(f"{name} block written twice + float block: format {fmt} equals the dense sum", np.array_equal(np.asarray(got, dtype=float), ref))
+        coo = CooMatrix((3, 3))
+        coo[1, 2] = 1
+        coo[1, 2] = 2.5
+        coo[0, 0] = np.int64(3)
+        k.prove("Python / numpy integer scalars accumulate with floats", np.array_equal(coo.asformat("array"), np.array([[3.0, 0, 0], [0, 0, 3.5], [0, 0, 0]])))
